@@ -85,9 +85,10 @@ def c38StepSt (st : DSt) (line : String) : DSt × String :=
     | some b =>
       match MitmVerif.C36.popTop 64 b, current with
       | .ok (.dict kvs, []), .int cur =>
-        match MitmVerif.C38Conv.migrateFlow freshId (fun t => (st.fadd.find? (fun p => p.1 == t)).map (·.2)) cur 64 { ws := st.ws, ids := st.ids } none kvs with
-        | some (st', d') => ({ st with ws := st'.ws, ids := st'.ids }, s!"ok {showBytes (MitmVerif.C36.dumps (.dict d'))} {st'.ws.length}")
-        | none => (st, "none")
+        match MitmVerif.C38Conv.migrateFlowF freshId (fun t => (st.fadd.find? (fun p => p.1 == t)).map (·.2)) cur 64 { ws := st.ws, ids := st.ids } none kvs with
+        | some (some (st', d')) => ({ st with ws := st'.ws, ids := st'.ids }, s!"ok {showBytes (MitmVerif.C36.dumps (.dict d'))} {st'.ws.length}")
+        | some none => (st, "none")
+        | none => (st, "diverged")
       | _, _ => (st, "bad-state")
     | none => (st, "bad-op")
   | ["conv4", h] =>
